@@ -35,8 +35,15 @@ def inventory(facts):
         ind = induction_locals(fn)
         sites = []
 
+        in_loop = set()
+
+        def lv(n):
+            if n.get("k") in ("For", "While", "Do", "RangeFor"):
+                walk(n.get("b"), lambda x: in_loop.add(id(x)) if x.get("k") == "Expr" else None)
+        walk(fn["body"], lv)
+
         def v(n):
-            if n.get("k") == "Expr":
+            if n.get("k") == "Expr" and id(n) not in in_loop:      # per-element work inside loops is not a default of restored state
                 e = strip(n.get("e"))
                 if isinstance(e, dict) and e.get("k") == "Assign" and e.get("op") == "=":
                     l = strip_all(e["l"])
